@@ -47,6 +47,7 @@ type FuncContract struct {
 }
 
 type SpecFunc struct {
+	Pkg       string // package path of the contract file that declares it
 	Macro     bool // always expanded inline
 	Name      string
 	Params    []QVar
@@ -332,6 +333,7 @@ func ParseContractFile(path, pkg string) (*ContractFile, error) {
 			if err != nil {
 				return nil, fmt.Errorf("%s:%d: %v", path, it.line, err)
 			}
+			sf.Pkg = pkg
 			cf.Specs[sf.Name] = sf
 			cf.SpecOrder = append(cf.SpecOrder, sf.Name)
 			cur, curLoop, curLemma = nil, nil, nil
@@ -477,11 +479,13 @@ func parseSpecFunc(kw, rest string, line int) (*SpecFunc, error) {
 	}
 	params := strings.TrimSpace(rest[lp+1 : rp])
 	if params != "" {
-		for _, p := range strings.Split(params, ",") {
-			f := strings.Fields(strings.TrimSpace(p))
-			if len(f) != 2 {
+		for _, p := range splitTopLevel(params) {
+			p = strings.TrimSpace(p)
+			sp := strings.IndexAny(p, " \t")
+			if sp < 0 {
 				return nil, fmt.Errorf("spec func param %q: want 'name type'", p)
 			}
+			f := []string{p[:sp], strings.TrimSpace(p[sp+1:])}
 			te, err := parseTypeString(f[1])
 			if err != nil {
 				return nil, err
@@ -537,4 +541,24 @@ func parseTypeString(s string) (*TypeExpr, error) {
 		te = p.typeExpr()
 	}()
 	return te, err
+}
+
+// splitTopLevel splits on commas that are not nested in parentheses.
+func splitTopLevel(s string) []string {
+	var out []string
+	depth, start := 0, 0
+	for i, c := range s {
+		switch c {
+		case '(':
+			depth++
+		case ')':
+			depth--
+		case ',':
+			if depth == 0 {
+				out = append(out, s[start:i])
+				start = i + 1
+			}
+		}
+	}
+	return append(out, s[start:])
 }
